@@ -130,7 +130,7 @@ def run(tier, seed):
 
     # 2. design model of the algorithms against the path-enumeration definition
     inv = "ModelOk InRange ForwardIsDefinition ChunksCoverSites PosteriorIsDefinition PosteriorsSumToOne"
-    configs = [("n2", 2, 3, 2, [1, 2])] if quick else [("n2", 2, 3, 4, [1, 2, 3]), ("n3", 3, 3, 2, [1, 2])]
+    configs = [("n2", 2, 3, 2, [1, 2])] if quick else [("n2q", 2, 3, 4, [1, 2]), ("n3", 3, 2, 2, [1, 2]), ("n2len4", 2, 4, 2, [1, 2])]
     for name, n, ml, dp, ev in configs:
         cfg = os.path.join(wd, "exact_%s.cfg" % name)
         _exact_cfg(cfg, n, ml, dp, ev, "fixed", inv)
@@ -172,7 +172,7 @@ def run(tier, seed):
     ck.exhaustive = True
     ck.rule = ("history part: every history of length <= %d over {update, set break points, logLik, posterior (all/one site), site "
                "likelihood (all/one), d1(a), d1(b), d2(a), d2(b), d1(unknown)} on each likelihood class and every history of length <= %d "
-               "over {update, Pij, getPij, getEquilibriumFrequencies} on each transition model, plus random histories (1-5 states, 1-52 "
+               "over {update, (full: setTransitionProbabilities,) Pij, getPij, getEquilibriumFrequencies} on each transition model, plus random histories (1-5 states, 1-52 "
                "sites, emissions down to 1e-200, auto/full/table transitions, all chunk sizes, random break points, 4 update styles); "
                "exact part: states 1-4 x sites 1-4 x {auto, full, table} x every subset of break points x {rescaled, logsum, lowmem with "
                "chunk 1..len+1}, dyadic parameters, 1-3 observations per scenario separated by updates; non-trivial = scenario with at "
